@@ -178,7 +178,7 @@ def rule_coef_solve(F, ev, R, config, rule="R-COEF-SOLVE"):
             oksame = fields.get(cuse["svd"]) == svd_t
             R.add(rule, config, b.key, "cached-svd-is-solve-svd@" + fl, oksame,
                   "" if oksame else "the SVD stored in the cache is not the decomposition used for the coefficients", s.get("span"))
-    R.floor(rule, config, 6 if config == "default" else 12, "six clauses per LeastSquaresProblem::set_params impl")
+    R.floor(rule, config, 6 if not config.endswith("parallel") else 12, "six clauses per LeastSquaresProblem::set_params impl")
 
 
 def rule_resid_term(F, ev, R, config, rule="R-RESID-TERM"):
@@ -215,7 +215,7 @@ def rule_resid_term(F, ev, R, config, rule="R-RESID-TERM"):
             elif Rm and Rm[0] == "call" and Rm[1] == "std::ops::Sub::sub":
                 msg = "residual sign/operands differ: %s" % short(Rm)[:200]
             R.add(rule, config, b.key, "resid=Yw-(WPhi)C@" + fl, ok, "" if ok else msg, s.get("span"))
-    R.floor(rule, config, 1 if config == "default" else 2, "one per set_params impl")
+    R.floor(rule, config, 1 if not config.endswith("parallel") else 2, "one per set_params impl")
 
 
 def rule_pure_projection(F, ev, R, config, rule="R-PURE-PROJECTION"):
@@ -308,7 +308,7 @@ def rule_pure_projection(F, ev, R, config, rule="R-PURE-PROJECTION"):
         v = ev.ret_val(Env(b))
         ok = v[0] == "call" and v[1].endswith("TerminationReason::was_successful") and field_chain(v[3][0]) == [rf[0], "termination"]
         R.add(rule, config, b.key, "fitresult-was-successful", ok, "" if ok else "returns `%s`" % short(v)[:160], b.j["span"])
-    R.floor(rule, config, 12 if config == "default" else 14, "accessors of LevMarProblem/FitResult/LeastSquaresProblem")
+    R.floor(rule, config, 12 if not config.endswith("parallel") else 14, "accessors of LevMarProblem/FitResult/LeastSquaresProblem")
 
 
 def rule_vec_colmajor(F, ev, R, config, rule="R-VEC-COLMAJOR"):
